@@ -7,7 +7,7 @@
 // Every request runs in a fork()ed child (a crash or a hang is an observation, not the end of the run).  After EVERY event the
 // probe (a fixed set of operations with fixed operands, results converted to integers / text) is evaluated on every live
 // object.  Output, one line per request:
-//     <class> | e0 N=hash N=hash ... | e1 ... | ... [ | X <signal or status> ]
+//     <class> | e0 N=part:hash,part:hash N=... | e1 ... | ... | end        or  ... | X <signal or status>  after a crash
 // With the environment variable C16_VERBOSE=1 the full probe text is printed instead of its hash.
 // The python side knows the lineage of every object and compares its hash with (a) the hash the lineage's root had right
 // after construction and (b) for deterministic constructions the hash of the same parameters in an otherwise empty process.
@@ -44,12 +44,23 @@ typedef std::ostringstream OS;
 static const long VALS[] = {0, 1, 2, 5, -7, 123456789L, 65521L, -1};
 static const int NV = sizeof(VALS) / sizeof(VALS[0]);
 
+static uint64_t fnv(const std::string& s) { uint64_t h = 1469598103934665603ULL; for (size_t i = 0; i < s.size(); ++i) { h ^= (unsigned char)s[i]; h *= 1099511628211ULL; } return h; }
+
+// the probe of one object is printed part by part ("name:" before the part is computed, its hash after), so that a crash inside
+// a part is attributed to that part
+struct Sink {
+    OS o; FILE* out; bool verbose, first, open;
+    Sink(FILE* f, bool v) : out(f), verbose(v), first(true), open(false) {}
+    void close() { if (open) { if (verbose) fprintf(out, "[%s]", o.str().c_str()); else fprintf(out, "%016llx", (unsigned long long)fnv(o.str())); o.str(""); open = false; fflush(out); } }
+    void part(const char* n) { close(); fprintf(out, "%s%s:", first ? "" : ",", n); fflush(out); first = false; open = true; }
+};
+
 // ------------------------------------------------------------------ probes
 template <class F, class E> static void show(OS& o, const F& f, const E& e) { Integer i; f.convert(i, e); o << i << ","; }
 template <class T> static Integer toI(const T& x) { Integer r; Caster(r, x); return r; }
 
 // the ring interface shared by Modular<*>, ModularBalanced<*>, Montgomery<*>, Modular<Log16>, GFqDom, GFqExtFast, GFqExt
-template <class F> static void probe_ring(const F& f, OS& o) {
+template <class F> static void probe_ring(const F& f, OS& o, bool dbl = true) {
     typedef typename F::Element E;
     Integer ch = toI(f.characteristic()), ca = toI(f.cardinality());
     o << "ch=" << ch << " card=" << ca << " z="; show(o, f, f.zero); o << " o="; show(o, f, f.one); o << " m="; show(o, f, f.mOne);
@@ -59,7 +70,7 @@ template <class F> static void probe_ring(const F& f, OS& o) {
         f.init(a, Integer(VALS[i])); o << " i" << i << "="; show(o, f, a);
         f.init(r, (int64_t)VALS[i]); show(o, f, r);
         if (VALS[i] >= 0) { f.init(r, (uint64_t)VALS[i]); show(o, f, r); }
-        f.init(r, (double)VALS[i]); show(o, f, r);
+        if (dbl) { f.init(r, (double)VALS[i]); show(o, f, r); }
         int64_t l; f.convert(l, a); o << l << ","; double d; f.convert(d, a); o << (long long)d << ",";
         o << f.isZero(a) << f.isOne(a) << f.isMOne(a) << f.isUnit(a);
         for (int j = 0; j < NV; j += 2) {
@@ -78,21 +89,31 @@ template <class F> static void probe_ring(const F& f, OS& o) {
     }
 }
 
-template <class F> static void probe_gfq(const F& f, OS& o) {
-    probe_ring(f, o);
+template <class F> static void probe_gfq(const F& f, Sink& s, bool dbl = true) {
     typedef typename F::Element E;
-    // element from a polynomial over the prime field (GFqDom::init(Rep&, Vector))
-    for (int k = 0; k < 3; ++k) {
-        std::vector<typename F::Element> v; v.push_back((E)(2 + k)); v.push_back((E)1); if (k == 2) { v.push_back((E)1); v.push_back((E)2); }
-        E r; f.init(r, v); o << " v" << k << "="; show(o, f, r);
-    }
+    s.part("ring"); probe_ring(f, s.o, dbl);
+    OS& o = s.o;
+    s.part("misc");
     o << " e=" << f.exponent() << " g="; show(o, f, f.generator()); o << " s=" << f.size() << " r=" << f.residu();
     o << " ir=" << f.irreducible();
+    // element from a polynomial over the prime field (GFqDom::init(Rep&, Vector)); coefficients are prime-field elements,
+    // whose representation is an index below p
+    s.part("vec");
+    long p = (long)f.characteristic();
+    for (int k = 0; k < 3; ++k) {
+        std::vector<E> v; v.push_back((E)((2 + k) % p));
+        if (f.exponent() > 1) { v.push_back((E)(1 % p)); if (k == 2) { v.push_back((E)(1 % p)); v.push_back((E)(2 % p)); } }   // (e = 1: _irred is not a polynomial)
+        E r; f.init(r, v); o << " v" << k << "="; show(o, f, r);
+    }
 }
-template <class F> static void probe_gfqext(const F& f, OS& o) {
-    probe_gfq(f, o);
+template <class F> static void probe_gfqext(const F& f, Sink& s, bool dbl) {
     typedef typename F::Element E;
-    for (int k = 0; k < 6; ++k) { E r; double d = (double)(3 * k + 1); f.init(r, d); o << " d" << k << "="; show(o, f, r); double back; f.convert(back, r); o << (long long)back; }
+    // GFqExtFast::init(double) requires 0 <= d < _MODOUT (GFqExt reduces first)
+    s.part("dbl");
+    OS& o = s.o;
+    long lim = (long)f.cardinality() - 1;
+    for (int k = 0; k < 6; ++k) { E r; double d = (double)((3 * k + 1) % lim); f.init(r, d); o << " d" << k << "="; show(o, f, r); double back; f.convert(back, r); o << (long long)back; }
+    probe_gfq(f, s, dbl);
 }
 
 template <class F> static void probe_extension(const F& f, OS& o) {
@@ -107,7 +128,8 @@ template <class F> static void probe_extension(const F& f, OS& o) {
         o << " |"; f.write(o, a); o << ";"; f.mul(r, a, b); f.write(o, r); o << ";"; f.add(r, a, b); f.write(o, r); o << ";"; f.sub(r, a, b); f.write(o, r);
         if (!f.isZero(b)) { o << ";"; f.inv(r, b); f.write(o, r); o << ";"; f.div(r, a, b); f.write(o, r); }
         o << ";"; f.axpy(r, a, b, c); f.write(o, r); o << ";"; f.neg(r, a); f.write(o, r);
-        Integer back; f.convert(back, a); o << ";" << back << ";" << f.isZero(a) << f.isOne(a) << f.areEqual(a, b);
+        if (!f.isZero(a)) { Integer back; f.convert(back, a); o << ";" << back; }
+        o << ";" << f.isZero(a) << f.isOne(a) << f.areEqual(a, b);
     }
 }
 
@@ -171,33 +193,34 @@ struct Any {
     virtual ~Any() {}
     virtual Any* copy() const = 0;
     virtual void assign(const Any& src) = 0;
-    virtual void probe(OS& o) = 0;
+    virtual void probe(Sink& s) = 0;
 };
-template <class D, void (*PROBE)(const D&, OS&)> struct Box : Any {
+template <class D, void (*PROBE)(const D&, Sink&)> struct Box : Any {
     D d;
     Box(const D& x) : d(x) {}
     Any* copy() const { return new Box(d); }                         // D's copy constructor
     void assign(const Any& src) { d = static_cast<const Box&>(src).d; }   // D's operator=
-    void probe(OS& o) { PROBE(d, o); }
+    void probe(Sink& s) { PROBE(d, s); }
 };
-template <class D, void (*PROBE)(D&, OS&)> struct BoxM : Any {           // probes that call non-const members
+template <class D, void (*PROBE)(D&, Sink&)> struct BoxM : Any {           // probes that call non-const members
     D d;
     BoxM(const D& x) : d(x) {}
     Any* copy() const { return new BoxM(d); }
     void assign(const Any& src) { d = static_cast<const BoxM&>(src).d; }
-    void probe(OS& o) { PROBE(d, o); }
+    void probe(Sink& s) { PROBE(d, s); }
 };
 
 static const char* BIGP[] = {"1000000000000000000000007", "170141183460469231731687303715884105727", "18446744073709551629"};
 
-template <class F> static void pr_ring(const F& f, OS& o) { probe_ring(f, o); }
-template <class F> static void pr_gfq(const F& f, OS& o) { probe_gfq(f, o); }
-template <class F> static void pr_gfqext(const F& f, OS& o) { probe_gfqext(f, o); }
-template <class F> static void pr_ext(const F& f, OS& o) { probe_extension(f, o); }
-template <class F> static void pr_poly(const F& f, OS& o) { probe_poly(f, o, false); }
-template <class F> static void pr_fact(const F& f, OS& o) { probe_factor(f, o); }
-template <class F> static void pr_intrns(F& f, OS& o) { probe_intrns(f, o); }
-template <class F> static void pr_rns(F& f, OS& o) { probe_rns(f, o); }
+template <class F> static void pr_ring(const F& f, Sink& s) { s.part("ring"); probe_ring(f, s.o); }
+template <class F> static void pr_gfq(const F& f, Sink& s) { probe_gfq(f, s); }
+template <class F> static void pr_gfqext(const F& f, Sink& s) { probe_gfqext(f, s, true); }
+template <class F> static void pr_gfqextfast(const F& f, Sink& s) { probe_gfqext(f, s, false); }
+template <class F> static void pr_ext(const F& f, Sink& s) { s.part("ext"); probe_extension(f, s.o); }
+template <class F> static void pr_poly(const F& f, Sink& s) { s.part("poly"); probe_poly(f, s.o, false); }
+template <class F> static void pr_fact(const F& f, Sink& s) { s.part("poly"); probe_factor(f, s.o); }
+template <class F> static void pr_intrns(F& f, Sink& s) { s.part("rns"); probe_intrns(f, s.o); }
+template <class F> static void pr_rns(F& f, Sink& s) { s.part("rns"); probe_rns(f, s.o); }
 
 #define RINGBOX(T) Box<T, pr_ring<T> >
 
@@ -224,10 +247,9 @@ static Any* make(const std::string& cls, int P) {
     if (cls == "Modular<Log16>") return new RINGBOX(Modular<Log16>)(Modular<Log16>((Modular<Log16>::Residu_t)L16[P]));
     if (cls == "GFqDom<int64_t>") { typedef GFqDom<int64_t> G; return new Box<G, pr_gfq<G> >(G((uint64_t)GP[P], (uint64_t)GE[P])); }
     if (cls == "GFqDom<int32_t>") { typedef GFqDom<int32_t> G; return new Box<G, pr_gfq<G> >(G((uint32_t)GP[P], (uint32_t)GE[P])); }
-    if (cls == "GFqExtFast<int64_t>") { typedef GFqExtFast<int64_t> G; return new Box<G, pr_gfqext<G> >(G((uint64_t)GP[P], (uint64_t)(GE[P] == 1 ? 2 : GE[P]))); }
+    if (cls == "GFqExtFast<int64_t>") { typedef GFqExtFast<int64_t> G; return new Box<G, pr_gfqextfast<G> >(G((uint64_t)GP[P], (uint64_t)(GE[P] == 1 ? 2 : GE[P]))); }
     if (cls == "GFqExt<int64_t>") { typedef GFqExt<int64_t> G; return new Box<G, pr_gfqext<G> >(G((uint64_t)GP[P], (uint64_t)(GE[P] == 1 ? 2 : GE[P]))); }
     if (cls == "Extension<GFqDom<int64_t>>") { typedef Extension<GFqDom<int64_t> > X; GFqDom<int64_t> B((uint64_t)GP[P], 1); return new Box<X, pr_ext<X> >(X(B, (uint64_t)(2 + (P & 1)))); }
-    if (cls == "Extension<Modular<double>>") { typedef Extension<Modular<double> > X; Modular<double> B((double)SMALL[P == 2 ? 1 : P]); return new Box<X, pr_ext<X> >(X(B, (uint64_t)(2 + (P >> 1)))); }
     if (cls == "Poly1Dom<Modular<double>,Dense>") { typedef Poly1Dom<Modular<double>, Dense> PD; Modular<double> B((double)SMALL[P]); return new Box<PD, pr_poly<PD> >(PD(B, Indeter(P & 1 ? "Y" : "X"))); }
     if (cls == "Poly1Dom<GFqDom<int64_t>,Dense>") { typedef Poly1Dom<GFqDom<int64_t>, Dense> PD; GFqDom<int64_t> B((uint64_t)GP[P], (uint64_t)GE[P]); return new Box<PD, pr_poly<PD> >(PD(B, Indeter(P & 1 ? "Y" : "X"))); }
     if (cls == "Poly1FactorDom<Modular<double>,Dense>") { typedef Poly1FactorDom<Modular<double>, Dense> PD; Modular<double> B((double)SMALL[P]); return new Box<PD, pr_fact<PD> >(PD(B, Indeter(P & 1 ? "Y" : "X"))); }
@@ -248,8 +270,6 @@ static Any* make(const std::string& cls, int P) {
     return 0;
 }
 
-static uint64_t fnv(const std::string& s) { uint64_t h = 1469598103934665603ULL; for (size_t i = 0; i < s.size(); ++i) { h ^= (unsigned char)s[i]; h *= 1099511628211ULL; } return h; }
-
 static void run_history(const std::string& line, bool verbose, FILE* out) {
     std::istringstream is(line);
     std::string cls, ev;
@@ -262,12 +282,11 @@ static void run_history(const std::string& line, bool verbose, FILE* out) {
         if (k == 'c') obj[n] = make(cls, m);
         else if (k == 'k') obj[n] = obj[m]->copy();
         else if (k == 'a') obj[n]->assign(*obj[m]);
-        else if (k == 'u') { OS o; obj[n]->probe(o); }
+        else if (k == 'u') { FILE* nul = fopen("/dev/null", "w"); Sink sk(nul, false); obj[n]->probe(sk); sk.close(); fclose(nul); }
         else if (k == 'd') { delete obj[n]; obj[n] = 0; }
         fprintf(out, " | %s", ev.c_str());
         for (int i = 0; i < 8; ++i) if (obj[i]) {
-            OS o; obj[i]->probe(o);
-            if (verbose) fprintf(out, " %d=[%s]", i, o.str().c_str()); else fprintf(out, " %d=%016llx", i, (unsigned long long)fnv(o.str()));
+            fprintf(out, " %d=", i); Sink sk(out, verbose); obj[i]->probe(sk); sk.close();
         }
         fflush(out);
     }
